@@ -740,6 +740,43 @@ func (g *Exec) Program() *awk.Program {
 		f0 := &awk.Func{Name: "f0", Params: []string{"p", "q", "l", "la"}, Body: body0}
 		g.inFunc = ""
 		p.Funcs = []*awk.Func{f0, f1, f2}
+		if g.n(0, 5, "deeprec") == 0 {
+			// deep recursion through a function with several parameters the caller never supplies: every
+			// activation must see them empty, however much operand stack earlier expressions have used and
+			// however often the stack has grown; the recursive call sits inside a larger expression
+			g.Feat["deep-recursion-locals"]++
+			depth := float64(g.n(8, 70, "drdepth"))
+			nloc := g.n(2, 4, "drlocals")
+			params := []string{"n"}
+			var seen *awk.Node = awk.StrN("<")
+			var set []*awk.Node
+			for i := 0; i < nloc; i++ {
+				name := fmt.Sprintf("u%d", i)
+				params = append(params, name)
+				seen = awk.BinN(awk.BinN(seen, " ", awk.VarN(name)), " ", awk.StrN(","))
+				set = append(set, awk.ExprS(awk.AssignN(awk.VarN(name), "=", awk.BinN(awk.VarN("n"), "*", awk.NumN(float64(i+2))))))
+			}
+			body := []*awk.Node{awk.ExprS(awk.AssignN(awk.VarN("g4"), "=", awk.BinN(awk.VarN("g4"), " ", awk.BinN(seen, " ", awk.StrN(">")))))}
+			body = append(body, set...)
+			call := awk.UserCallN("dr", awk.BinN(awk.VarN("n"), "-", awk.NumN(1)))
+			var expr *awk.Node
+			switch g.n(0, 2, "drshape") {
+			case 0:
+				expr = call
+			case 1:
+				expr = awk.BinN(awk.BinN(awk.NumN(1), "+", awk.BinN(awk.NumN(2), "*", call)), "-", awk.VarN("u0"))
+			default:
+				expr = awk.BinN(awk.BinN(awk.VarN("u1"), " ", awk.StrN("|")), " ", awk.GroupN(awk.BinN(awk.VarN("u0"), "+", call)))
+			}
+			body = append(body, awk.IfN(awk.BinN(awk.VarN("n"), ">", awk.NumN(0)), []*awk.Node{awk.ReturnN(expr)}, nil, false), awk.ReturnN(awk.VarN("u0")))
+			p.Funcs = append(p.Funcs, &awk.Func{Name: "dr", Params: params, Body: body})
+			callSt := []*awk.Node{awk.ExprS(awk.AssignN(awk.VarN("g3"), "=", awk.UserCallN("dr", awk.NumN(depth)))), awk.PrintN([]*awk.Node{awk.CallN("length", awk.VarN("g4")), awk.VarN("g3")}, "", nil)}
+			if g.n(0, 1, "drwhere") == 0 || len(p.Begin) == 0 {
+				p.Begin = append(p.Begin, callSt)
+			} else {
+				p.End = append(p.End, callSt)
+			}
+		}
 	}
 	return p
 }
